@@ -48,6 +48,94 @@ CMAPS = [
     ("90ms-RKSJ-H", "Foo1", [b"AB", b"\x82\xa0"]),     # unknown ordering -> no unicode map
     ("90ms-RKSJ-V", "Japan1", [b"AB\x82\xa0"]),        # vertical writing
 ]
+
+
+def _load_cmap_data(name: str):
+    import gzip
+    import os
+    import pickle
+    path = os.path.join(os.environ.get("VERIF_REPO", "/repo"), "pdfminer", "cmap", name + ".pickle.gz")
+    if not os.path.exists(path):
+        return None
+    with gzip.open(path) as fp:
+        return pickle.loads(fp.read())          # the package's own data files, read as data
+
+
+def _decode(code2cid, s: bytes) -> List[int]:
+    out, d = [], code2cid
+    for b in s:
+        if b in d:
+            x = d[b]
+            if isinstance(x, int):
+                out.append(x)
+                d = code2cid
+            else:
+                d = x
+        else:
+            d = code2cid
+    return out
+
+
+def _two_byte_codes(code2cid) -> List[bytes]:
+    res = []
+    for a, x in code2cid.items():
+        if isinstance(x, dict):
+            for b, y in x.items():
+                if isinstance(y, int):
+                    res.append(bytes([a, b]))
+    return res
+
+
+def writing_mode_pairs() -> List[Tuple[str, str, List[bytes]]]:
+    """Same character collection in horizontal and vertical writing: (name-H, name-V) pairs whose
+    sample strings contain codes whose unicode value DIFFERS between the two tables of the collection
+    (arrows, brackets, punctuation), mixed with codes that do not."""
+    out: List[Tuple[str, str, List[bytes]]] = []
+    for stem, ordering in [("Identity", "Japan1"), ("Identity", "Korea1"), ("Identity", "GB1"), ("Identity", "CNS1"),
+                           ("90ms-RKSJ", "Japan1"), ("KSC-EUC", "Korea1"), ("GB-EUC", "GB1"), ("B5pc", "CNS1")]:
+        um = _load_cmap_data("to-unicode-Adobe-" + ordering)
+        if um is None:
+            continue
+        H, V = um["CID2UNICHR_H"], um["CID2UNICHR_V"]
+        differ = sorted(k for k in set(H) | set(V) if H.get(k) != V.get(k))
+        same = sorted(k for k in H if H.get(k) == V.get(k))[40:44]
+        if not differ:
+            continue
+        if stem == "Identity":
+            cids = differ[:3] + same[:2] + differ[-2:]
+            samples = [b"".join(struct.pack(">H", c) for c in cids[:4]), b"".join(struct.pack(">H", c) for c in cids[3:])]
+        else:
+            cms = [_load_cmap_data(stem + sfx) for sfx in ("-H", "-V")]
+            if cms[0] is None or cms[1] is None:
+                continue
+            dset = set(differ)
+            hot: List[bytes] = []
+            cold: List[bytes] = []
+            for cm in cms:
+                for c in _two_byte_codes(cm["CODE2CID"]):
+                    (hot if any(k in dset for k in _decode(cm["CODE2CID"], c)) else cold).append(c)
+            hot = sorted(set(hot))
+            cold = sorted(set(cold) - set(hot))
+            if not hot:
+                continue
+            samples = [b"".join(hot[:3] + cold[:1]), b"".join(cold[1:2] + hot[-2:])]
+        out.append((stem + "-H", ordering, samples))
+        out.append((stem + "-V", ordering, samples))
+    return out
+
+
+_PAIRS: Optional[List[Tuple[str, str, List[bytes]]]] = None
+
+
+def all_cmaps() -> List[Tuple[str, str, List[bytes]]]:
+    """CMAPS (hand-picked, incl. missing CMap / unknown ordering) followed by the writing-mode pairs,
+    -H and -V of one collection adjacent."""
+    global _PAIRS
+    if _PAIRS is None:
+        _PAIRS = writing_mode_pairs()
+    return CMAPS + _PAIRS
+
+
 SIMPLE_BYTES = list(range(65, 91)) + list(range(97, 123)) + [32, 32, 33, 39, 45, 96, 0x80, 0x85, 0x8A, 0xA4,
                                                            0xA7, 0xC9, 0xD0, 0xE9, 0xF1, 0xFC, 40, 41, 92]
 
@@ -175,6 +263,8 @@ class FontDesc:
         self.umap: Optional[str] = None  # unicode map name looked up in CMapDB
         self.usecmap: Optional[str] = None  # `usecmap` inside the ToUnicode stream: looked up in CMapDB, then ignored
         self.multibyte = False
+        self.vertical = False
+        self.identity = False           # composite font with Identity-H/V and a predefined collection
         self.samples: List[bytes] = []
 
 
@@ -197,8 +287,19 @@ class Plan:
         self.simple = ["std14", "type1", "truetype", "type3"]
         rng.shuffle(self.simple)
         self.simple_i = 0
-        self.cmaps = list(range(len(CMAPS)))
-        rng.shuffle(self.cmaps)
+        # predefined CMaps: the writing-mode pairs first (a rotating start, -H and -V adjacent so that both
+        # land in the same pool), then the hand-picked ones
+        n0, allc = len(CMAPS), all_cmaps()
+        pairs = [[i, i + 1] for i in range(n0, len(allc) - 1, 2)]
+        if pairs:
+            k = rng.randrange(len(pairs))
+            pairs = pairs[k:] + pairs[:k]
+            for pr in pairs:
+                rng.shuffle(pr)
+        rest = list(range(n0))
+        rng.shuffle(rest)
+        self.cmaps = [i for pr in pairs[:3] for i in pr] + rest + [i for pr in pairs[3:] for i in pr]
+        self.cmap_i = 0
         self.other_i = 0
         self.seen: List[str] = []
 
@@ -212,9 +313,10 @@ class Plan:
     def next_other(self):
         """alternates Identity-H and the predefined CMaps"""
         self.other_i += 1
-        if self.other_i % 3 == 0:
+        if self.other_i % 3 == 0:               # after every complete -H/-V pair
             return ("cid-identity", None)
-        return ("cid-predef", self.cmaps[self.other_i % len(self.cmaps)])
+        self.cmap_i += 1
+        return ("cid-predef", self.cmaps[(self.cmap_i - 1) % len(self.cmaps)])
 
 
 def gen_encoding(rng, fd: FontDesc, alloc, plan: Optional[Plan] = None) -> Any:
@@ -357,7 +459,9 @@ def gen_font(rng, alloc, plan: Optional[Plan] = None, force: Optional[str] = Non
     else:
         fd.kind = "cid-predef"
         fd.multibyte = True
-        name, ordering, samples = rng.choice(CMAPS) if forced_cmap is None else CMAPS[forced_cmap]
+        name, ordering, samples = rng.choice(all_cmaps()) if forced_cmap is None else all_cmaps()[forced_cmap]
+        fd.vertical = name.endswith("-V")
+        fd.identity = name.startswith("Identity-")
         dn = alloc()
         dfont = {"Type": "Font", "Subtype": "CIDFontType0", "BaseFont": "GenCJK",
                  "CIDSystemInfo": {"Registry": b"Adobe", "Ordering": ordering.encode(), "Supplement": 2},
@@ -371,8 +475,10 @@ def gen_font(rng, alloc, plan: Optional[Plan] = None, force: Optional[str] = Non
         fd.reads.append(dn)
         fd.obj = {"Type": "Font", "Subtype": "Type0", "BaseFont": "GenCJK-" + name, "Encoding": name,
                   "DescendantFonts": [Ref(dn)]}
-        fd.cmap = name
+        fd.cmap = None if fd.identity else name        # Identity-H/V never reach CMapDB
         fd.umap = "Adobe-" + ordering
+        if plan is not None:
+            plan.seen.append("cmap:%s:%s" % (name, ordering))
         fd.samples = samples
     return fd
 
@@ -497,7 +603,7 @@ def gen_doc(rng, idx: int, plan: Optional[Plan] = None) -> Doc:
     fonts: List[FontDesc] = []
     for k in range(nfonts):
         # font 0: simple font with the next planned encoding; font 1: next planned composite font
-        fd = gen_font(rng, mk_alloc(k), plan, "simple" if k in (0, 2) else "other" if k == 1 else None)
+        fd = gen_font(rng, mk_alloc(k), plan, "simple" if k in (0, 2) else "other")
         fonts.append(fd)
         objs[FONT_BASE + k] = fd.obj
         objs.update(fd.aux)
